@@ -1273,7 +1273,8 @@ fn wellformed_domain(r: &Req) -> bool {
 
 fn oracle(op: &str, r: &Req) -> Ans {
 	let tree = match build_tree(r) { Ok(t) => t, Err(e) => return Ans::BadOp(e) };
-	let W::Ok(b) = write(&tree) else { return Ans::out_of_domain() };
+	// a panic of the writer is a violation of "fails cleanly", never a reason to leave the domain (audit rule (ii))
+	let b = match write(&tree) { W::Ok(b) => b, W::Panic => return Ans::fail("panic"), W::Err => return Ans::out_of_domain() };
 	let w = match dissect(b) { Ok(w) => w, Err(_) => return Ans::fail("unparsable") };
 	let res = if op == "oracle-write-read" { check_denotes(r, &w) } else if wellformed_domain(r) { check_wellformed(&w) } else { return Ans::out_of_domain() };
 	match res { Ok(()) => Ans::pass(), Err(t) => Ans::fail(t) }
@@ -1298,7 +1299,7 @@ fn oracle_frames_fail_iff(r: &Req) -> Ans {
 		lines: r.lines.clone(), lvs: r.lvs.as_ref().map(|v| v.iter().map(|x| RLv { start: x.start, end: x.end, name: x.name.clone(), desc: x.desc.clone(), sig: x.sig.clone(), index: x.index }).collect()),
 		frames: vec![None; r.insns.len()] };
 	let tree0 = match build_tree(&r0) { Ok(t) => t, Err(e) => return Ans::BadOp(e) };
-	let W::Ok(b0) = write(&tree0) else { return Ans::out_of_domain() };
+	let b0 = match write(&tree0) { W::Ok(b) => b, W::Panic => return Ans::fail("panic"), W::Err => return Ans::out_of_domain() };
 	let Ok(w0) = dissect(b0) else { return Ans::fail("unparsable") };
 	let objects: usize = r.frames.iter().flatten().map(|f| f.types().iter().filter(|t| matches!(t, RVt::Obj(_))).count()).sum();
 	if w0.class.pool_count as usize + 2 * objects > 65535 { return Ans::out_of_domain() }
@@ -1425,10 +1426,9 @@ fn exec(op: &str, args: &[Sexp]) -> Ans {
 }
 
 /// the fragment of `Thm.C02.class_write_read_partial` as far as it is visible in a tree that was read (valid names, flags within
-/// their masks, well-typed constants and annotations nested at most 255 levels hold for every duke tree that was read): no `Code`,
-/// no `Record`, no `Module`
+/// their masks, well-typed constants and annotations nested at most 255 levels hold for every duke tree that was read): no `Code`
 fn in_writer_fragment(c: &ClassFile) -> bool {
-	c.module.is_none() && c.record_components.is_empty() && c.methods.iter().all(|m| m.code.is_none())
+	c.methods.iter().all(|m| m.code.is_none())
 }
 
 // ------------------------------------------------------------------------------------------------ generators
@@ -2290,13 +2290,47 @@ fn gen_class_write(r: &mut Rng, thorough: bool, out: &mut Out) {
 			out.op("class-write", &[hex(&bytes)]);
 			out.op("oracle-class-write-read", &[hex(&bytes)]);
 		}
-		// the same class cut down to the proved fragment of `class_write_read_partial`: no Code, Record, Module
+		// the same class cut down to the proved fragment of `class_write_read_partial`: no Code
 		let mut f = g.clone();
-		f.records.clear(); f.module = None;
 		for m in &mut f.methods { m.code = None; }
 		let ch = Choices::random(r);
 		if let Ok(bytes) = catch_unwind(AssertUnwindSafe(|| assemble(&f, &ch, r))) {
 			out.stats.hit("class-write:fragment-class");
+			if !f.records.is_empty() { out.stats.hit("class-write:fragment-class:with-Record"); }
+			if f.module.is_some() { out.stats.hit("class-write:fragment-class:with-Module"); }
+			out.op("class-write", &[hex(&bytes)]);
+			out.op("oracle-class-write-read", &[hex(&bytes)]);
+		}
+	}
+	// classes of the fragment that do have a `Record` (components with Signature / annotations / type annotations / unknown
+	// attributes) resp. a `Module` attribute (requires / exports / opens / uses / provides), under random encodings
+	let n_each = if thorough { 1500 } else { 80 };
+	for want_module in [false, true] {
+		let mut made = 0;
+		let mut tries = 0;
+		while made < n_each && tries < 40 * n_each {
+			tries += 1;
+			let mut cfg = Cfg::random(r);
+			cfg.modern = true;
+			let mut st = fvh::run::Stats::default();
+			let mut f = c01gen::class(r, &cfg, &mut st);
+			if (want_module && f.module.is_none()) || (!want_module && f.records.is_empty()) { continue }
+			for m in &mut f.methods { m.code = None; }
+			let ch = if r.chance(1, 4) { Choices::plain() } else { Choices::random(r) };
+			let Ok(bytes) = catch_unwind(AssertUnwindSafe(|| assemble(&f, &ch, r))) else { continue };
+			made += 1;
+			out.stats.hit(if want_module { "class-write:fragment-module" } else { "class-write:fragment-record" });
+			if want_module {
+				let m = f.module.as_ref().unwrap();
+				out.stats.add("class-write:fragment-module:requires", m.requires.len() as u64);
+				out.stats.add("class-write:fragment-module:exports", m.exports.len() as u64);
+				out.stats.add("class-write:fragment-module:opens", m.opens.len() as u64);
+				out.stats.add("class-write:fragment-module:uses", m.uses.len() as u64);
+				out.stats.add("class-write:fragment-module:provides", m.provides.len() as u64);
+			} else {
+				out.stats.add("class-write:fragment-record:components", f.records.len() as u64);
+				out.stats.add("class-write:fragment-record:component-attributes", f.records.iter().map(|c| c.signature.is_some() as usize + (!c.rva.is_empty()) as usize + (!c.ria.is_empty()) as usize + (!c.rvta.is_empty()) as usize + (!c.rita.is_empty()) as usize + c.attrs.len()).sum::<usize>() as u64);
+			}
 			out.op("class-write", &[hex(&bytes)]);
 			out.op("oracle-class-write-read", &[hex(&bytes)]);
 		}
